@@ -191,6 +191,11 @@ def _rand_double(rng):
     return float(rng.randint(-2 ** 53, 2 ** 53))
 
 
+def _finite(x):
+    """doubles whose repr is decimal/scientific float text with exponent in -300..300 (the property's float domain)"""
+    return x if math.isfinite(x) and (x == 0 or 1e-300 < abs(x) < 1e300) else 1.5
+
+
 def cases(tier, rng):
     big = tier in ("thorough", "widen")
     S = _SPECIAL
@@ -251,7 +256,7 @@ def cases(tier, rng):
         yield {"op": "fparse", "rows": [t, "12345.678", "-1e-5"]}
     for _ in range(300 if big else 40):
         n = rng.choice([1, 2, 5, 40])
-        yield {"op": "froundtrip", "xs": [f2h(x) for x in (_rand_double(rng) for _ in range(n * 2)) if math.isfinite(x) and (x == 0 or 1e-300 < abs(x) < 1e300)][:n] or ["0x1.8p+1"]}
+        yield {"op": "froundtrip", "xs": [f2h(_finite(_rand_double(rng))) for _ in range(n)]}
     for _ in range(400 if big else 40):
         rows = [_float_text(rng) for _ in range(rng.choice([2, 3, 4]))]
         yield {"op": "fbatch", "rows": rows}
@@ -260,7 +265,7 @@ def cases(tier, rng):
         n = rng.choice([1, 2, 3, 6])
         yield {"op": "column", "ints": [rng.choice(S) if rng.random() < 0.4 else _rand_int(rng) for _ in range(n)],
                "unsigned": rng.random() < 0.5,
-               "floats": [f2h(_rand_double(rng) if rng.random() < 0.5 else float(_float_text(rng))) for _ in range(n)],
+               "floats": [f2h(_finite(_rand_double(rng) if rng.random() < 0.5 else float(_float_text(rng)))) for _ in range(n)],
                "lists": [[_rand_int(rng) for _ in range(rng.choice([1, 2, 4]))] for _ in range(n)]}
 
 
